@@ -42,6 +42,8 @@ def cases(tier, seed):
             g["bf"] = 2; g["base_blocks"] = (2, 2); g["maxsz"] = 4
         if i % 5 == 4:
             g["full_refine"] = True
+        if i % 4 == 1:      # far from the origin: coordinate / cell size of 1e5 .. 1e7 (coordinates in other units)
+            g["origin"] = [rng.choice([1.0e5, -3.0e5, 2.5e6]) for _ in range(3)]
         for n in range(3):      # one case per normal: the 4-level plotfiles are the long poles
             cs.append({"gen": g, "sel_seed": seed * 47 + i * 3 + n, "per_class": 2 if tier == "quick" else 3,
                        "normals": [n], "fmt": dict(ref_ratio_extra=rng.choice([0, 0, 1, 3]), trailing_blank=rng.random() < 0.7, close_blank=rng.random() < 0.3, floatfmt=rng.choice(["repr", "17g"]))})
@@ -85,7 +87,7 @@ def judge(m, vol, n, pos, L, fl, o1, o2, ref):
         e = ref["value"][..., names.index(nm)].T
         d = dec.T
         scale = slicemodel.scale_of(e[d])
-        bad = d & slicemodel.differs(a, e, 1e-9 * scale)
+        bad = d & slicemodel.differs(a, e, slicemodel.value_tol(m, L, n) * scale)
         if bad.any():
             j, i = np.argwhere(bad)[0]
             probs.append(f"field {nm}: {int(bad.sum())} decided pixels differ from the interpolation of "
@@ -94,7 +96,7 @@ def judge(m, vol, n, pos, L, fl, o1, o2, ref):
         if nm == "a" + "xyz"[n] and inside0:
             aa, cc = m.coef[n]
             expv = aa + cc * pos
-            badp = ~(np.abs(a - expv) <= 1e-9 * max(1.0, abs(expv)))
+            badp = ~(np.abs(a - expv) <= slicemodel.value_tol(m, L, n) * max(1.0, abs(expv)))
             if badp.any():
                 j, i = np.argwhere(badp)[0]
                 probs.append(f"field {nm} (affine along the normal): {int(badp.sum())} pixels are not "
